@@ -189,9 +189,9 @@ Proof.
     pose proof (run_le_all W' (code th) E). unfold AL in Hb. lia.
 Qed.
 
-Lemma sched_step_s cfg cfg' : Stopped (ths cfg) -> Bnd (ths cfg) -> sched_step cfg = Some cfg' -> Stopped (ths cfg') /\ Bnd (ths cfg').
+Lemma sched_step0_s cfg cfg' : Stopped (ths cfg) -> Bnd (ths cfg) -> sched_step0 cfg = Some cfg' -> Stopped (ths cfg') /\ Bnd (ths cfg').
 Proof.
-  intros HS HB. unfold sched_step. destruct (dead cfg); [discriminate|].
+  intros HS HB. unfold sched_step0. destruct (dead cfg); [discriminate|].
   destruct (next_from_schedule cfg (sched cfg)) as [pick rest].
   set (cfg1 := mkCfg (shs cfg) (ths cfg) rest false).
   destruct (match pick with Some t => Some t | None => lowest_enabled cfg1 end) as [t|].
@@ -210,6 +210,34 @@ Proof.
       * apply perform_s; assumption.
       * cbn [ths]. split; assumption.
     + destruct (all_finished cfg1); [discriminate|]. intros Y; injection Y as <-. cbn [ths]. split; assumption.
+Qed.
+
+Lemma unnotified_s cfg tok c : Stopped (ths cfg) -> Bnd (ths cfg) -> unnotified cfg tok = Some c -> Stopped (ths c) /\ Bnd (ths c).
+Proof.
+  intros HS HB H. unfold unnotified in H.
+  assert (K : forall w wt b, nth_error (ths cfg) w = Some wt ->
+              Stopped (set_th (ths cfg) w (mkTh (code wt) (calls wt) (lo_to (lo wt) b) TWoken)) /\
+              Bnd (set_th (ths cfg) w (mkTh (code wt) (calls wt) (lo_to (lo wt) b) TWoken))).
+  { intros w wt b Nw. split; intros y Hy; (destruct (In_set_th _ _ _ _ _ Nw Hy) as [->|(u & _ & Nu)]).
+    - unfold stopped. cbn [status]. exact I.
+    - apply HS. eapply nth_error_In; eauto.
+    - cbn [code]. apply HB. eapply nth_error_In; eauto.
+    - apply HB. eapply nth_error_In; eauto. }
+  destruct (Nat.leb 2000 tok).
+  - destruct (nth_error (ths cfg) (tok - 2000)) as [wt|] eqn:EN; [|discriminate].
+    destruct (status wt) as [|timed| |]; try discriminate. injection H as <-. cbn [ths]. apply K. exact EN.
+  - destruct (Nat.leb 1000 tok); [|discriminate].
+    destruct (nth_error (ths cfg) (tok - 1000)) as [wt|] eqn:EN; [|discriminate].
+    destruct (status wt) as [|timed| |]; try discriminate. destruct timed; [|discriminate]. injection H as <-. cbn [ths]. apply K. exact EN.
+Qed.
+
+Lemma sched_step_s cfg cfg' : Stopped (ths cfg) -> Bnd (ths cfg) -> sched_step cfg = Some cfg' -> Stopped (ths cfg') /\ Bnd (ths cfg').
+Proof.
+  intros HS HB. unfold sched_step. destruct (dead cfg) eqn:Ed; [discriminate|].
+  assert (H0 : sched_step0 cfg = Some cfg' -> Stopped (ths cfg') /\ Bnd (ths cfg')) by (apply sched_step0_s; assumption).
+  destruct (sched cfg) as [|tok rest]; [exact H0|].
+  destruct (unnotified _ tok) as [c|] eqn:EU; [|exact H0].
+  intros E. injection E as <-. eapply unnotified_s; [| |exact EU]; assumption.
 Qed.
 
 Lemma init_s progs : Stopped (start_threads progs) /\ Bnd (start_threads progs).
